@@ -256,7 +256,15 @@ struct G {
           s.a = uint32_t(r.below(4)); s.b = 1u << r.below(7); s.d = int32_t(r.below(5)) - 2;
           p.steps.push_back(s); p.section_count++;
         }
-        if (p.section_count) { Step s; s.kind = StepKind::kSection; s.a = uint32_t(r.below(p.section_count + 1)); cur_section = s.a; p.steps.push_back(s); }
+        // (sometimes a second section is created right away and the emitter switches to the LAST one first: a Builder then
+        // meets a section id that is two above the highest it has seen)
+        bool jump_to_last = false;
+        if (p.section_count < 3 && r.chance(1, 3)) {
+          Step s; s.kind = StepKind::kNewSection; char b[32]; snprintf(b, sizeof b, ".sec%u", p.section_count); s.text = b;
+          s.a = uint32_t(r.below(4)); s.b = 1u << r.below(7); s.d = int32_t(r.below(5)) - 2;
+          p.steps.push_back(s); p.section_count++; jump_to_last = true;
+        }
+        if (p.section_count) { Step s; s.kind = StepKind::kSection; s.a = jump_to_last ? p.section_count : uint32_t(r.below(p.section_count + 1)); cur_section = s.a; p.steps.push_back(s); }
         break;
       }
       default: { if (!opt.comments) break; Step s; s.kind = StepKind::kComment; s.text = "a comment node"; p.steps.push_back(s); break; }
